@@ -154,7 +154,7 @@ func (s *cliScen) payloadResult() string {
 	return pick(s.g, []string{`{"v":` + s.newTok() + `}`, "true", "null", `"s` + s.newTok() + `"`, s.newTok(), `[1,2]`})
 }
 
-var cliErrCodes = []int{-32000, 7, -32097, -32096, -32601, -32603, -32700}
+var cliErrCodes = []int{-32000, 7, -32097, -32096, -32601, -32603, -32700, -32099, 0, -32098, -32600, -32602}
 
 // replyFor builds one reply-shaped member for id in a random shape.
 func (s *cliScen) replyFor(id string) cmember {
